@@ -202,13 +202,13 @@ SPECS['C02'] = dict(
 )
 
 SPECS['C03'] = dict(
-    kind='native', drivers=['p_c03.cpp'], shims=['sut_strm'], with_lib=True,
+    kind='native', drivers=['p_c03.cpp'], shims=['sut_strm'], with_lib=True, runtime_opts=lambda sut: {'echse': sut.program('echse', 'asan')},
     level='exploration',
     technique='model-based testing of the stream multiplexer: generated constituent streams and peek/pop operation sequences against a sorted-multiset model (rapidcheck)',
     level_text=('1..40 generated constituents (RDATE lists, finite and infinite RRULEs, several RRULEs per event, same and different UIDs with coinciding instants, '
                 'streams that end at once) are muxed through echs_evstrm_vmux / the variadic echs_evstrm_mux / vmux_clon and driven by generated peek/pop sequences; '
                 'peeks must not consume, pops must be chronological, every model occurrence must be delivered exactly once with identical (start, UID) collapsed, and '
-                'end-of-stream must come only after all constituents ended and stay.'),
+                'end-of-stream must come only after all constituents ended and stay.  About 1 case in 7 goes through the command line instead: the events are spread over 2..3 files (an identical copy of an event may recur in a later file) and `echse unroll f0 f1 ..` of the binary built from the tree must deliver, in order, exactly what it delivers for the single calendar.'),
     level_note='the model is built from clones of the same constituents popped separately (C01/C02 judge those); ties between different UIDs may come in any order',
     rule=('case = (calendar text with n events, operation string over {peek, pop} of length <= 126 (quick) / 606 (thorough), mux flavour); constituents share a few start phases so that '
           'instants coincide; constituents are listed up to 400 occurrences, unfinished ones bound the judged horizon. non-trivial = >=2 constituents, >=1 tie (same instant from two '
@@ -283,12 +283,12 @@ SPECS['C04'] = dict(
                 'spawn is matched against the occurrences an independent parse of the same event yields: never early, never for the past, late wake-ups collapse to one run, no due '
                 'occurrence left unrun, tasks vanish after their last run and last child.'),
     level_note='verdicts are about echsd.c\'s logic under libev\'s documented callback order, not about libev, real time, signals or the kernel',
-    rule=('history = up to 60 (thorough 300) ops over 5 task UIDs and 2 users: add/replace with SECONDLY..DAILY rules, RDATE lists incl. duplicates and past instants, DTSTART long before now, '
-          'events entirely in the past, cancel, ADV(dt, lateness in {1 ms, 0.4 s, 1 s, 7.5 s, 130 s}), EXITALL, DUMP. non-trivial = a late wake-up spanning >=2 occurrences, or a replace/cancel '
+    rule=('history = up to 60 (thorough 150) ops over 5 task UIDs and 2 users: add/replace with SECONDLY..DAILY rules, RDATE lists incl. duplicates and past instants, DTSTART long before now, '
+          'events entirely in the past, cancel, ADV(dt, lateness in {1 ms, 0.4 s, 1 s, 7.5 s, 130 s}), EXITN k (one child exits), EXITALL, RESTART (1 history in 4: final checkpoint, all tasks dropped, queues re-read), DUMP. non-trivial = a late wake-up spanning >=2 occurrences, or a replace/cancel '
           'between arm and fire, or a child exit before a late wake-up; distinct = script text'),
     assumptions=['ordering between different tasks due in the same wake-up is not asserted', 'real sockets, real fork and signals are out of scope of this harness'],
     quick=dict(workers=16, cases=200, size=100, timeout=1500, opts={'maxops': 60}),
-    thorough=dict(workers=16, cases=10000, size=100, timeout=7200, opts={'maxops': 300}),
+    thorough=dict(workers=16, cases=2500, size=100, timeout=7200, opts={'maxops': 150}),
 )
 
 SPECS['C12'] = dict(
@@ -330,11 +330,11 @@ SPECS['C06'] = dict(
                 'reloads the spool must hold, per user, exactly the tasks (UID and owner) acknowledged as of the last completed checkpoint (or as of that user\'s own last completed rename when the '
                 'interrupted checkpoint got that far); after a clean shutdown exactly the acknowledged state.'),
     level_note='death of the process, not of the machine: durability of renamed files across power loss (fsync) is outside the property and the harness',
-    rule=('history = 3..30 (thorough 80) ops of 3 users over 8 UIDs each: add/replace (1..3 events, plain/MAX-SIMUL/long DESCRIPTION/mail attributes), cancel, CHK (timer checkpoint), GET /queue, final SHUT or CHK; '
+    rule=('history = 3..24 (thorough 60) ops of 3 users over 8 UIDs each: add/replace (1..3 events, plain/MAX-SIMUL/long DESCRIPTION/mail attributes), cancel, CHK (timer checkpoint), GET /queue, final SHUT or CHK; '
           '1 in 6 histories floods the 16-slot dirty set; every history is run under every fault point (evidence.extra.fault_runs counts sessions); non-trivial = the history has >= 8 checkpoint system calls'),
     assumptions=['tasks are YEARLY rules in the future (no retirement during the history)', 'a checkpoint operation that saw a failing call is not counted as completed'],
     quick=dict(workers=16, cases=5, size=100, timeout=1500, opts={'maxops': 24, 'kinds': 2}),
-    thorough=dict(workers=16, cases=400, size=100, timeout=7200, opts={'maxops': 80}),
+    thorough=dict(workers=16, cases=120, size=100, timeout=7200, opts={'maxops': 60}),
 )
 
 
@@ -366,7 +366,7 @@ SPECS['C14'] = dict(
                 'echsd harness, and the VTODO echsd hands to the executor is (a) checked to carry the limit as an RFC 5545 duration by an independent parser and (b) fed verbatim (only uid/gid, directory and '
                 'job text replaced) to the echsx binary built from the tree. The shim logs the seconds passed to alarm() -- they must equal the limit (+1 s rounding) -- and scales the timer so that the kill '
                 'of a long job (X-SIGNAL in the journal, lifetime) and the undisturbed end of a short job are observed for limits up to weeks; overdue DUE requests must not run the job.'),
-    level_note='the SIGALRM->SIGXCPU path runs for real but on a scaled timer; wall-clock bounds are generous (kill expected near 0.5 s, failure beyond 1.8 s) and only reported together with the logged alarm value',
+    level_note='the SIGALRM->SIGXCPU path runs for real but on a scaled timer (limit -> about 0.5 s, the long job would end by itself after 4 s); no wall-clock measurement is a verdict: the logged alarm() value and the X-SIGNAL journal field are',
     rule=('case = (form in {dtend, dura, due}, limit 1 s .. ~17 days, ISO spelling, long or short job); non-trivial = every case that reaches the executor; classes: form, limit bucket, killed-by-deadline / finished-early / overdue-refused'),
     assumptions=['DUE is exercised on echsx only (echsd never writes DUE)', 'uid/gid, working directory and job text of the request are replaced by ones valid in the sandbox'],
     quick=dict(workers=16, cases=40, size=100, timeout=1500),
